@@ -258,6 +258,55 @@ def h_step_sack_abandon(ctx, q, ngaps, parked=False):
         ctx.observe("left", len(left))
 
 
+def h_step_abandon_neighbour(ctx, trigger):
+    """Sender: a one-chunk maxRetransmits=0 message is abandoned (third SACK strike or T3) while a
+    reliable message is only partly transmitted behind it (first fragment in flight, tail still
+    queued).  Nothing of the reliable message may be abandoned."""
+    from .c02_drain import _check_inv, _chunk
+
+    with Env(crc=_crc()) as env:
+        base = ctx.int("base_tsn", 0, U32)
+        t = env.transport("controlling", established=True, local_tsn=base, remote_tsn=77)
+        sent = []
+
+        async def rec(chunk):
+            sent.append(chunk)
+
+        t._send_chunk = rec
+        env.channel(t, id=3, maxRetransmits=0)
+        env.channel(t, id=1)
+        pr = _chunk(base, ctx.int("pr_book", 1, 1200))
+        pr.stream_id, pr._max_retransmits, pr._misses = 3, 0, 2
+        r1 = _chunk((base + 1) & U32, 1200)
+        r1.flags, r1.stream_id = 2, 1  # first fragment of the reliable message, in flight
+        r2 = _chunk((base + 2) & U32, ctx.int("tail_book", 1, 1200))
+        r2.flags, r2.stream_id, r2._sent_count = 1, 1, 0  # its last fragment, not sent yet
+        t._sent_queue = deque([pr, r1])
+        t._outbound_queue.append(r2)
+        t._local_tsn = (base + 3) & U32
+        t._last_sacked_tsn = (base - 1) & U32
+        t._advanced_peer_ack_tsn = (base - 1) & U32
+        t._cwnd = 1200 + pr._book_size  # window full: the tail has to wait
+        t._flight_size = pr._book_size + 1200
+        t._t3_start()
+        _check_inv(ctx, t, "pre")
+        if trigger == "sack":
+            s = sctp.SackChunk()
+            s.cumulative_tsn = (base - 1) & U32
+            s.advertised_rwnd = 131072
+            s.gaps = [(2, 2)]  # the reliable fragment arrived, the PR chunk is reported missing again
+            sx.run(t._receive_sack_chunk(s))
+        else:
+            t._t3_handle.fired = True
+            t._t3_expired()
+        env.drain()
+        ctx.reach("neighbour-abandon-processed")
+        ctx.check(pr._abandoned, "the-partially-reliable-message-is-abandoned")
+        ctx.check(not r1._abandoned and not r2._abandoned, "abandonment-stops-at-the-message-boundary", "r1=%s r2=%s" % (r1._abandoned, r2._abandoned))
+        _check_inv(ctx, t, "post")
+        ctx.observe("sent", len(sent))
+
+
 def h_step_forward_gap(ctx, have):
     """Receiver, ordered PR stream: a 3-fragment message with some fragments missing is abandoned
     while the two complete messages sent after it have already arrived.  The FORWARD-TSN itself
@@ -482,6 +531,7 @@ HARNESSES = {
     "flush-params": Harness("flush-params", lambda ctx, **kw: __import__("harness.c13_channel", fromlist=["h_flush_params"]).h_flush_params(ctx, **kw), lambda tier: [{"n": n} for n in ((2,) if tier == "quick" else (2, 3))], style="BMC over configurations", bounds="messages of partially reliable, unordered and reliable channels flushed in one call (solver-chosen kinds and order): each is handed to _send with its own channel's lifetime / retransmission limit / ordering", encoded=ENC + ["aiortc.rtcsctptransport:RTCSctpTransport._data_channel_flush"], stubs=STUBS + ["RTCSctpTransport._send -> recorder"], twin="flushed", opts={"samples": 1}),
     "step-sack-abandon": Harness("step-sack-abandon", h_step_sack_abandon, lambda tier: [{"q": q, "ngaps": g} for q in ((2, 3) if tier == "quick" else (2, 3, 4)) for g in (1, 2) if not (tier == "quick" and q == 3 and g == 2)] + [{"q": 2, "ngaps": g, "parked": True} for g in ((1,) if tier == "quick" else (1, 2))], style="STEP", bounds="one maxRetransmits=0 message of 2..3 (4) fragments in flight with symbolic sizes, miss counters and gap-ack flags; one SACK with symbolic cumulative point and <=2 gap blocks; TSN origin symbolic", encoded=ENC, stubs=STUBS, twin="sack-over-pr-message-processed", opts={"samples": 1}),
     "step-forward-acked": Harness("step-forward-acked", h_step_forward_acked, lambda tier: [{"q": q} for q in ((0, 1) if tier == "quick" else (0, 1, 2))] + [{"q": 0, "parked": True}], style="STEP", bounds="FORWARD-TSN over 1..3 abandoned chunks outstanding (in one job with a reliable channel's message parked in the channel queue) with one (stream, sequence) entry, 0..1 (quick) / 0..2 further outstanding chunks in arbitrary state, one SACK with symbolic cumulative point; TSN origin symbolic", encoded=ENC, stubs=STUBS, twin="sack-over-forward-tsn-processed", opts={"samples": 1}),
+    "step-abandon-neighbour": Harness("step-abandon-neighbour", h_step_abandon_neighbour, lambda tier: [{"trigger": x} for x in ("sack", "t3")], style="STEP", bounds="one-chunk PR message (symbolic size) followed by a two-fragment reliable message whose tail is still unsent; third SACK strike or T3; TSN origin symbolic", encoded=ENC, stubs=STUBS, twin="neighbour-abandon-processed", opts={"samples": 1}),
     "step-forward-gap": Harness("step-forward-gap", h_step_forward_gap, lambda tier: [{"have": h} for h in ([0, 2], [0], [2], [], [0, 1], [1, 2])], style="STEP", bounds="ordered PR stream at symbolic TSN / stream-sequence origins: a 3-fragment message of which a solver-independent subset (6 cases) arrived is abandoned; the two later complete messages arrived before the FORWARD-TSN", encoded=ENC, stubs=STUBS, twin="forward-tsn-over-gap-processed", opts={"samples": 1}),
     "step-forward-held": Harness("step-forward-held", h_step_forward_held, lambda tier: [{"held": h} for h in ((0, 1) if tier == "quick" else (0, 1, 2))], style="STEP", bounds="ordered PR stream at a symbolic 16-bit sequence origin and 32-bit TSN origin: one lost message, 0..1 (quick) / 0..2 received messages held behind it, FORWARD-TSN over all of them, then the next two messages in swapped order", encoded=ENC, stubs=STUBS, twin="forward-tsn-over-held-processed", opts={"samples": 1}),
     "step-abandon": Harness("step-abandon", h_step_abandon, lambda tier: [{"nfrag": n, "nsent": s, "pos": 0} for n in (2, 3) for s in range(1, n + 1)], style="STEP", bounds="PR message of 2..3 fragments of which 1..n are in flight when T3 abandons it; TSN origin symbolic", encoded=ENC, stubs=STUBS, twin="abandoned"),
